@@ -7,7 +7,8 @@ from p_c09 import model_check, replay  # noqa: F401
 
 ALPHABET = ["pong", "msgs_ack", "new_session", "update_short", "api_object", "unknown_ctor", "truncated", "empty_body", "empty_container",
             "nested_container", "unsolicited_result", "repeated_result", "bad_msg", "future_salts", "msgs_state_info", "msg_detailed_info",
-            "msg_new_detailed_info", "gzip_update", "rpc_error_unsolicited", "code404", "garbage_frame", "short_frame"]
+            "msg_new_detailed_info", "gzip_update", "rpc_error_unsolicited", "code404", "garbage_frame", "short_frame",
+            "rpc_result_cut4", "rpc_result_cut8", "rpc_result_cut12", "gzip_damaged", "gzip_damaged_in_result"]
 
 
 def scenarios(ctx, thorough):
@@ -47,6 +48,12 @@ def scenarios(ctx, thorough):
         scs.append(S.mk(sid, "after-rotation-" + w, "robust",
                         [P(90), {"a": "Rotate"}, S.call("c1", 11), {"a": "Answer", "tags": [11], "n": 600}, {"a": "Await", "c": "c1"},
                          {"a": "Push", "what": w}, {"a": "Settle"}, P(91), {"a": "Push", "what": w}, P(92), {"a": "Settle"}]))
+    # a content-related message and, without waiting for its acknowledgement, the end of the connection
+    for w in ("api_object", "update_short", "unsolicited_result"):
+        sid += 1
+        scs.append(S.mk(sid, "close-right-after-" + w, "reconnect",
+                        [P(90), {"a": "PushClose", "what": w}, {"a": "Sleep", "n": 250}, P(91), {"a": "PushClose", "what": w}, {"a": "Sleep", "n": 250}, P(92),
+                         {"a": "Settle"}]))
     # orderly close between messages, then a probe: reconnect with the same key
     for w in [None] + (ALPHABET if thorough else ALPHABET[:8]):
         sid += 1
